@@ -125,6 +125,13 @@ def work(tier, seed):
                 cfg = to_cfg(BASE[1], pc, seed)
                 cfg.update(pdtype=pd, prec_dtype="f64" if pd == "f64" else "f32", lr=lr)
                 units.append({"cfg": cfg, "backend": backend, "mode": False})
+            # factor matrices in another precision than the parameters (float32 / float64 either way)
+            for pd, prec in (("f32", "f64"), ("f64", "f32")):
+                if tier == "quick" and (pi + (backend == "eager") + (pd == "f64")) % 2 == 0:
+                    continue
+                cfg = to_cfg(BASE[1], pc, seed)
+                cfg.update(pdtype=pd, prec_dtype=prec)
+                units.append({"cfg": cfg, "backend": backend, "mode": False})
     # ignored dimensions (the factor updates / preconditioning skip a dimension lower than a preconditioned one)
     for pc in (["shampoo", {"ignored": [0]}], ["soap", {"ignored": [0]}], ["shampoo", {"ignored": [1]}]):
         for backend in ("eager", "aot_eager"):
